@@ -9,7 +9,7 @@ from ..gen import render as RD
 ID = "C10"
 LEVEL = "exploration"
 DESIGN_REF = "DESIGN.md section 3, C10"
-TECHNIQUE = "Hypothesis grammar-based generation of abstract programs and layouts: round-trip equality of the parse tree with the generating AST, layout metamorphic relation, and single-token corruptions that must raise SyntaxError"
+TECHNIQUE = "Hypothesis grammar-based generation of abstract programs and layouts (random, and coverage-guided through atheris/libFuzzer feeding the same strategy via fuzz_one_input): round-trip equality of the parse tree with the generating AST, layout metamorphic relation, and single-token corruptions that must raise SyntaxError"
 LEVEL_TEXT = (
     "Abstract command files (1-5 commands, 0-5 arguments; integers, decimals with optional exponent, quoted strings over "
     "arbitrary Unicode with escapes, unquoted strings of every lexical class, lists nested to depth 3, tuples) are "
@@ -251,6 +251,60 @@ def corruption_cases():
         RD.programs(safe_values, max_commands=3), st.sampled_from(CORRUPTIONS), st.integers(0, 50))
 
 
+def run_atheris(ctx, rec, runs):
+    """Coverage-guided generation: libFuzzer (through atheris) feeds the Hypothesis strategy of abstract programs via
+    `fuzz_one_input`, with the round-trip oracle inside the target; failing cases come back as JSON and are replayed
+    through check_roundtrip here."""
+    import glob
+    import json
+    import os
+    import shutil
+    import subprocess
+    import sys
+    import tempfile
+
+    from ..core import VERIF_DIR
+
+    deps = os.path.join(VERIF_DIR, ".deps")
+    if not os.path.isdir(os.path.join(deps, "atheris")):
+        rec.notes.append("atheris not installed in .deps: coverage-guided part skipped")
+        return
+    tmp = tempfile.mkdtemp(prefix="vcheck-c10-fuzz-")
+    try:
+        corpus, out = os.path.join(tmp, "corpus"), os.path.join(tmp, "out")
+        os.makedirs(corpus)
+        os.makedirs(out)
+        env = dict(os.environ, VCHECK_FUZZ_OUT=out, PYTHONPATH=os.environ.get("PYTHONPATH", "") + os.pathsep + deps)
+        cmd = [sys.executable, "-W", "ignore", "-m", "vcheck.fuzz.roundtrip_target", corpus, "-runs=%d" % runs,
+               "-seed=%d" % (ctx.hseed("atheris") % (2 ** 31 - 2) + 1), "-max_len=2048", "-artifact_prefix=" + out + os.sep,
+               "-print_final_stats=1", "-timeout=120", "-rss_limit_mb=4096"]
+        res = subprocess.run(cmd, cwd=VERIF_DIR, env=env, capture_output=True, text=True, timeout=7200)
+        execs = 0
+        for line in res.stderr.splitlines():
+            if line.startswith("stat::number_of_executed_units:"):
+                execs = int(line.split(":")[-1])
+        rec.evaluated(execs)
+        rec.parts["roundtrip/atheris_fuzz_one_input"] += execs
+        rec.label("atheris_executions", n=execs)
+        stats = os.path.join(out, "stats.json")
+        if os.path.exists(stats):
+            with open(stats) as f:
+                st_ = json.load(f)
+            rec.label("atheris_valid_cases", n=st_.get("cases", 0))
+        if execs == 0:
+            rec.notes.append("atheris campaign did not run: %s" % res.stderr[-300:].replace("\n", " | "))
+        for path in sorted(glob.glob(os.path.join(out, "case-*.json")))[:5]:
+            with open(path) as f:
+                payload = json.load(f)
+            for f_ in check_roundtrip(payload["case"], rec):
+                if not rec.is_known(f_):
+                    rec.add_failure(f_, payload["case"], "roundtrip")
+    finally:
+        shutil.rmtree(tmp, ignore_errors=True)
+
+
 def run_shard(ctx, rec):
     drive(ctx, rec, "roundtrip", RD.programs(), check_roundtrip, ctx.n(4000, 80000), max_novel=8)
     drive(ctx, rec, "corruption", corruption_cases(), check_corruption, ctx.n(1500, 30000))
+    if ctx.shard < (1 if ctx.quick else 8):
+        run_atheris(ctx, rec, 1500 if ctx.quick else 60000)
